@@ -164,6 +164,15 @@ impl Serialize for AnySer<'_> {
                 hit("serialize_newtype_variant");
                 z.serialize_newtype_variant("E", *i as u32, name(*i), &AnySer(x))
             }
+            // the way std collections serialise: through the Serializer's collect_seq / collect_map hooks
+            S::Seq(xs) if xs.len() % 2 == 1 => {
+                hit("collect_seq");
+                z.collect_seq(xs.iter().map(AnySer))
+            }
+            S::Map(es) if es.len() % 2 == 1 => {
+                hit("collect_map");
+                z.collect_map(es.iter().map(|(k, v)| (AnySer(k), AnySer(v))))
+            }
             S::Seq(xs) => {
                 hit("serialize_seq");
                 let mut s = z.serialize_seq(Some(xs.len()))?;
